@@ -98,4 +98,3 @@ func runSeq(rep *report.Report, alpha []sym, cls func(*rtp.Packet, string) info,
 		})
 	}
 }
-
